@@ -9,10 +9,13 @@ def plan(ctx):
     if ctx.quick:
         return [dict(name="c03_d1", nc=3, depth=1, vmax=1, hlen=1, ops=OPS),
                 dict(name="c03_d2", nc=2, depth=2, vmax=1, hlen=1, ops=OPS, sample=5000),
+                # wide fibers: every legal search-start shortcut at every distance from its target
+                dict(name="c03_w1", nc=6, depth=1, vmax=1, hlen=1, ops=["get", "getpos"], sample=5000),
                 dict(name="c03_sim2", nc=2, depth=2, vmax=1, hlen=6, ops=OPS, simulate=240),
                 dict(name="c03_sim3", nc=2, depth=3, vmax=1, hlen=5, ops=OPS, simulate=80)]
     return [dict(name="c03_d1", nc=4, depth=1, vmax=2, hlen=1, ops=OPS),
             dict(name="c03_d2", nc=2, depth=2, vmax=1, hlen=1, ops=OPS),
+            dict(name="c03_w1", nc=7, depth=1, vmax=1, hlen=1, ops=["get", "getpos"], sample=60000),
             dict(name="c03_d1h2", nc=2, depth=1, vmax=1, hlen=2, ops=OPS, sample=30000),
             dict(name="c03_sim2", nc=3, depth=2, vmax=1, hlen=10, ops=OPS, simulate=3600, chunks=12),
             dict(name="c03_sim3", nc=2, depth=3, vmax=1, hlen=8, ops=OPS, simulate=1800, chunks=12)]
